@@ -1,4 +1,5 @@
 """C19 — behaviour is independent of the absolute value of the microsecond counter."""
+import common as C
 import framework as F
 
 W = 1 << 32
@@ -29,6 +30,42 @@ class C19(F.Spec):
             ops.append("poll")
             yield F.Case("gen%d" % i, ops, {"tags": ["boot:%s" % ("zero" if boot == 0 else "nearwrap" if boot > W - 10**7 else "other")],
                                             "boot": boot})
+
+    def extra_findings(self, tier, rng):
+        """Part 2: device scenarios replayed with different boot values of the counter; the
+        timestamped traces (true time) must be identical."""
+        from props.c08 import gen_rs_scenario
+        exe = C.build_driver("drv_dev", "cfg")
+        n = 40 if tier == "quick" else 400
+        out, nt = [], 0
+        for i in range(n):
+            board, _, ops = gen_rs_scenario(rng, "quick", boot=777)
+            total = sum(int(o.split()[1]) for o in ops if o.startswith("adv ")) * 1000
+            # place the wrap before / inside / after the scenario (never exactly on a stamp value 0)
+            boots = [777, (W - rng.randint(1, max(total, 2))) | 1, (W - total - 5000001) | 1]
+            traces = []
+            for b in boots:
+                o2 = ["boot %d" % b] + ops[1:]
+                rc, lines, err = C.run_lines([exe], "\n".join(o2) + "\n")
+                if rc != 0:
+                    out.append((F.Finding("crash", "rc=%s %s" % (rc, err[-600:])), o2))
+                    traces = None
+                    break
+                keep = [x for x in lines if x.startswith(("GPIO ", "TRIGFIRE ", "SETRELAY "))]
+                traces.append(keep)
+            if not traces:
+                continue
+            if any(x.startswith("GPIO ") for x in traces[0]):
+                nt += 1
+            for b, tr in zip(boots[1:], traces[1:]):
+                if tr != traces[0]:
+                    k = next((j for j in range(min(len(tr), len(traces[0]))) if tr[j] != traces[0][j]), min(len(tr), len(traces[0])))
+                    out.append((F.Finding("boot-dependent-behaviour",
+                                          "trace with boot=%d differs from boot=777 at event %d: %s vs %s" % (
+                                              b, k, tr[k] if k < len(tr) else None, traces[0][k] if k < len(traces[0]) else None)),
+                                ["boot %d" % b] + ops[1:]))
+                    break
+        return 3 * n, nt, out
 
     def monitor(self, case, groups, rc, err):
         if rc != 0:
